@@ -432,7 +432,7 @@ func (x *Exec) applyContract(fr *Frame, st *State, fn *ssa.Function, con *Contra
 		}
 		env := mkEnv(pre, nil)
 		if recv != nil {
-			x.addFact(x.descT(recv, recv))
+			x.addFact(x.tt.Implies(x.tt.Not(x.tt.Eq(recv, x.tt.IntLit(0))), x.descT(recv, recv)))
 		}
 		if os.Getenv("GOVC_DEBUG") != "" {
 			fmt.Fprintf(os.Stderr, "debug: effects call %s at %s\n", key, x.posStr(x.curPos))
